@@ -9,6 +9,7 @@ TABLE = {
     "T6": ("t6_schema", "AstSchema.lean"),
     "T3": ("t3_classes", "ClassTable.lean"),
     "T4": ("t4_frames", "FrameTable.lean"),
+    "T5": ("t5_audit", "AuditTables.lean"),
 }
 
 
